@@ -2,6 +2,8 @@ package rules
 
 import (
 	"fmt"
+	"go/token"
+	"go/types"
 	"os"
 	"sort"
 	"strings"
@@ -17,6 +19,18 @@ var groupProg *an.Prog
 // groupKey identifies a WaitGroup / mutex / channel: by struct field when it
 // lives in a field, by allocation when it is a local.
 func groupKey(v ssa.Value) string {
+	// a pointer to the group carried in a field of an object built for one launch (set once, where the
+	// object is built): the group it points to
+	if u, ok := an.Resolve(v).(*ssa.UnOp); ok && u.Op == token.MUL && groupProg != nil && isPointerType(u.Type()) {
+		if _, isFA := u.X.(*ssa.FieldAddr); isFA {
+			srcs := groupProg.DeepSources(u, 6, true)
+			if len(srcs) == 1 {
+				if a, ok := srcs[0].(*ssa.Alloc); ok {
+					return "local:" + an.Short(a.Parent()) + ":" + a.Comment
+				}
+			}
+		}
+	}
 	if k := an.FieldKey(v); k != "" {
 		return k
 	}
@@ -420,4 +434,9 @@ func pairingViaCallers(p *an.Prog, addFn *ssa.Function, key string) (string, boo
 		}
 	}
 	return fmt.Sprintf("the matching Done is registered by the caller: Add and Done balance on all %d paths of %d caller(s) with %s inlined", n, len(callers), an.Short(addFn)), n > 0 && adds > 0
+}
+
+func isPointerType(t types.Type) bool {
+	_, ok := t.Underlying().(*types.Pointer)
+	return ok
 }
